@@ -310,13 +310,18 @@ func Round10Families() []OutsideAtom {
 	addDecl("binder_method_parameter", "type S_ID struct {\n\tn uint64\n}\n\nfunc (s S_ID) down(S_ID__down uint64) uint64 {\n\tif s.n == 0 {\n\t\treturn S_ID__down\n\t}\n\treturn S_ID{n: s.n - 1}.down(S_ID__down)\n}\n\nfunc ID_fn(a uint64) uint64 {\n\treturn S_ID{n: 3}.down(a)\n}")
 	addDecl("binder_function_parameter", "func r_ID(r_ID uint64) uint64 {\n\treturn r_ID + 1\n}\n\nfunc ID_fn(a uint64) uint64 {\n\treturn r_ID(a)\n}")
 	addDecl("binder_local_variable", "func r_ID(n uint64) uint64 {\n\tr_ID := n + 1\n\treturn r_ID\n}\n\nfunc ID_fn(a uint64) uint64 {\n\treturn r_ID(a)\n}")
-	// --- grouped declarations: a refused spec next to good ones
-	addDecl("grp_var_one_bad_spec", "var (\n\tV1_ID uint64  = 1\n\tV2_ID float64 = 2\n\tV4_ID uint64  = 4\n)\n\nfunc ID_fn(a uint64) uint64 {\n\treturn a + V1_ID + V4_ID\n}")
-	addDecl("grp_var_bad_first", "var (\n\tV2_ID float64 = 2\n\tV4_ID uint64  = 4\n)\n\nfunc ID_fn(a uint64) uint64 {\n\treturn a + V4_ID\n}")
-	addDecl("grp_var_bad_last", "var (\n\tV1_ID uint64 = 1\n\tV3_ID int8   = 3\n)\n\nfunc ID_fn(a uint64) uint64 {\n\treturn a + V1_ID\n}")
-	addDecl("grp_const_one_bad_spec", "const (\n\tA_ID uint64 = 1\n\tB_ID        = 1.5\n\tC_ID uint64 = 3\n)\n\nfunc ID_fn(a uint64) uint64 {\n\treturn a + A_ID + C_ID\n}")
-	addDecl("grp_const_all_good", "const (\n\tA_ID uint64 = 1\n\tC_ID uint64 = 3\n)\n\nfunc ID_fn(a uint64) uint64 {\n\treturn a + A_ID + C_ID\n}")
-	addDecl("grp_var_two_bad_specs", "var (\n\tV1_ID uint64  = 1\n\tV2_ID float64 = 2\n\tV3_ID int8    = 3\n\tV4_ID uint64  = 4\n)\n\nfunc ID_fn(a uint64) uint64 {\n\treturn a + V1_ID + V4_ID\n}")
+	// --- what stands as the VALUE of a struct-literal field (`f ::= v` is a notation at level 60)
+	fv := "type F_ID struct {\n\tok bool\n\tlt bool\n\tn  uint64\n}\n\nfunc score_ID(f F_ID) uint64 {\n\tr := f.n\n\tif f.ok {\n\t\treturn r + 10\n\t}\n\tif f.lt {\n\t\treturn r + 100\n\t}\n\treturn r\n}\n\n"
+	for _, c := range []struct{ id, ok, lt, n string }{
+		{"comparisons", "a == 3", "a < 8", "a + 1"},
+		{"comparisons_other", "a != 3", "a >= 8", "a - 1"},
+		{"negation", "!(a == 3)", "!(a > 8)", "a * 2"},
+		{"conjunction", "a > 1 && a < 9", "a == 0 || a == 255", "a % 7"},
+		{"nested_comparison_of_sums", "a+1 == 4", "a*2 <= a+8", "a << 1"},
+		{"call_results", "score_ID(F_ID{n: a}) == a", "score_ID(F_ID{ok: a == 0, n: 1}) > 5", "a"},
+	} {
+		addDecl("fieldval_"+c.id, fv+"func ID_fn(a uint64) uint64 {\n\tf := F_ID{ok: "+c.ok+", lt: "+c.lt+", n: "+c.n+"}\n\tp := &F_ID{ok: "+c.lt+", lt: "+c.ok+", n: 1}\n\treturn score_ID(f)*1000 + score_ID(*p)\n}")
+	}
 	// --- nil outside comparisons (recorded finding: the gold files pin `SliceSet ptrT "s" #2 slice.nil`)
 	nl := "type L_ID struct {\n\tv    uint64\n\tnext *L_ID\n}\n\nfunc isNil_ID(p *L_ID) bool {\n\treturn p == nil\n}\n\n"
 	addDecl("nilctx_pointer_argument", nl+"func ID_fn(a uint64) uint64 {\n\tif isNil_ID(nil) {\n\t\treturn a + 1\n\t}\n\treturn 0\n}")
